@@ -7,6 +7,18 @@ claimed={
    text="Bounded symbolic execution of the real ParseAll/ParseOne/isFile/isLocal (go/ssa of the working tree): every list of up to K arguments of up to L arbitrary bytes is covered by solver-decided path conditions; each path's partition/ordering/error obligations are discharged. Bounded, not a proof.",
    note="Trusted: gosym engine (cross-validated natively on sampled path models each run), z3 4.8.12, the harness's reference classification of file/local arguments written from the filepath.Ext documentation. Outside: more than K arguments or arguments longer than L bytes.",
    technique="symbolic execution of go/ssa with SMT (z3) path feasibility and assertion discharge; native replay of counter-examples"),
+ "C15": dict(level="model_checking", ref="6 (C15)",
+   text="Bounded symbolic execution of the real scanner (Scan, next, scanNumber, scanString, scanComment, findLineEnd, ... from the working tree's go/ssa): every input of <= N bytes scanned to EOF, plus T consecutive Scan calls over a symbolic window placed after 43 concrete contexts from an arbitrary scanner state. Per step: progress measure decreases, offsets ordered and inside the source, token text equals the source bytes, no byte outside a token in comment mode, no panic. Bounded, not a proof.",
+   note="Trusted: gosym engine (paths cross-validated natively each run), z3, oracle conventions listed in evidence.assumptions. Outside: tokens longer than context+window; non-ASCII window bytes in the quick tier.",
+   technique="symbolic execution of go/ssa with SMT (z3) path feasibility and assertion discharge; native replay of counter-examples"),
+ "C16": dict(level="model_checking", ref="6 (C16)",
+   text="Differential symbolic execution: the XGo scanner and GOROOT's go/scanner (go1.23.5) both run symbolically on the same bytes (42 concrete contexts + window of <= N symbolic bytes, both comment modes); offsets, kinds by spelling, literals, inserted semicolons and error offsets must agree until EOF. Four genuine divergence classes are recorded as known findings and assumed away by class.",
+   note="Trusted: gosym engine, z3, go/scanner of the installed toolchain as the reference. Outside: lexemes longer than context+window, non-ASCII window bytes, streams after the first token of an open known-finding class.",
+   technique="differential symbolic execution of two real implementations over go/ssa with SMT (z3); native replay"),
+ "C32": dict(level="model_checking", ref="6 (C32)",
+   text="Differential symbolic execution of tpl/scanner.Scan and scanner.Scan on the same bytes (41 concrete contexts + window of <= N symbolic bytes, both comment modes): offsets, literals, inserted semicolons and EOF must agree on inputs made of shared lexemes.",
+   note="Trusted: gosym engine, z3. Shared-lexeme filter: no keywords, c/py strings, ~, @, **. Outside: lexemes longer than context+window, non-ASCII window bytes.",
+   technique="differential symbolic execution of two real implementations over go/ssa with SMT (z3); native replay"),
 }
 na_default="check not built yet (work in progress)"
 na={}
